@@ -2,7 +2,7 @@ ROOT = {"dir": "", "pkgname": "ipfscluster"}
 
 SPEC = {
     "go": [dict(ROOT, files=["root/rig_test.go", "root/rig_c04_test.go", "root/c10_test.go"], test="TestVerifC10",
-                n_quick=600, n_thorough=16000, shards_quick=6, shards_thorough=16)],
+                n_quick=600, n_thorough=8000, shards_quick=6, shards_thorough=16)],
     "rule": "generated: 1..8 members, one failing (ping alert delivered to every survivor's real alertsHandler, sequentially, in a random order; "
             "5% other alerts) or removed (PeerRemove on one peer) or, for expiry, every member running StateSync; pinsets of 1..6 pins over 7 CIDs with "
             "any allocations (65% held by the failed peer), factors, options, expiry before/after now, 22% created by pin-update (source present or gone), "
